@@ -757,6 +757,17 @@ func (ev *fixEvaluator) RescaleNoop(op0 *rlwe.Ciphertext, nb int, opOut *rlwe.Ci
 	return nil
 }
 
+// OUTVIEW control: the result takes the share's coefficients as they are
+func switchInto(combined *rlwe.Ciphertext, level int, opOut *rlwe.Ciphertext) {
+	opOut.Value[0].CopyLvl(level, combined.Value[0])
+	opOut.Value[1] = ring.Poly{Coeffs: combined.Value[1].Coeffs[:level+1]}
+}
+
+// FLOATU64 control: the scaled value goes through a saturating conversion
+func scaleUpFast(value, scale float64, Q uint64) uint64 {
+	return uint64(scale*value+0.5) % Q
+}
+
 // ERRSTORE control: the failed product stays in the cache
 type powCache struct{ vals map[int]*big.Int }
 
